@@ -175,6 +175,27 @@ def run_config(cfg, res):
     finally:
       armed[0] = True
   sys.addaudithook(fs_hook)
+  # probing is a file-system call too (no audit event exists for stat): what the database module asks `exists()` about on
+  # behalf of a name must lie inside the data directory as well
+  import carbon.database as _dbmod
+  _real_exists = _dbmod.exists
+
+  def _exists(path_):
+    if armed[0]:
+      armed[0] = False
+      try:
+        p_ = path_.decode('utf-8', 'surrogateescape') if isinstance(path_, bytes) else path_
+        try:
+          rp_ = os.path.realpath(p_)
+        except Exception:
+          rp_ = os.path.normpath(p_)
+        res.count('existence_probes_watched')
+        if not (rp_ == real_data or rp_.startswith(real_data + os.sep)):
+          escapes.append(('exists', p_))
+      finally:
+        armed[0] = True
+    return _real_exists(path_)
+  _dbmod.exists = _exists
   created = 0
   create_budget = 1500 if cfg['tier'] == 'quick' else 8000
   label = '%s/hash=%s' % (backend, cfg['hashf'])
@@ -233,8 +254,18 @@ def run_config(cfg, res):
       created += 1
       armed[0] = True
       try:
+        try:
+          db.exists(name)            # what the writer asks first (with hashed file names this also looks for a file to migrate)
+          res.count('exists_calls')
+        except Exception:
+          res.count('exists_raised')
         db.create(name, [(60, 10)], 0.5, 'average')
         res.count('creates_ok')
+        try:
+          if not db.exists(name):
+            res.violation(label + '/created-but-absent', 'exists(%r) is False right after create()' % (name,), dict(name=name))
+        except Exception:
+          res.count('exists_raised')
         if created % 3 == 0:
           # ... and written to, the library refusing the write now and then (a corrupt file, an I/O error)
           wsp = sys.modules.get('whisper')
